@@ -23,7 +23,7 @@ shared with the model is `Frame`, `Bytes`, the decimal printer `H2.dec` and `utf
 `Legal` delimits what the statement quantifies over (frames with the payload sizes RFC 7540
 prescribes, a decodable request block whose pseudo-headers are the four request pseudo-headers).
 Outside `Legal` the fingerprint is unspecified. The `KF.C17.*` predicates are the input classes on
-which the current code is known to deviate.
+which the current code is known to deviate (three after the fixes of fixes/C17-*.patch).
 -/
 namespace Huginn.Spec.Akamai
 open Huginn.H2 Huginn.Spec.H2
@@ -174,43 +174,10 @@ def zeroWindowIncrement (frames : List Frame) : Bool :=
   | some f => incrementOf f.payload == 0
   | none => false
 
-/-- first request HEADERS frame has PADDED or PRIORITY set: the code feeds the raw payload
-(pad length, priority fields, padding included) to HPACK -/
-def headersPaddedOrPriority (frames : List Frame) : Bool :=
-  match firstWithRest isRequestHeaders frames with
-  | some (f, _) => padded f || hasPriority f
-  | none => false
-
-/-- first request HEADERS frame lacks END_HEADERS: the code decodes the first fragment alone -/
+/-- the first request header block has started but its END_HEADERS has not arrived (the block is
+incomplete in the bytes seen): the code decodes the fragments received so far, the specification
+reports no pseudo-header order yet -/
 def headersContinued (frames : List Frame) : Bool :=
-  match firstWithRest isRequestHeaders frames with
-  | some (f, _) => !endHeaders f
-  | none => false
-
-/-- a pseudo-header of the first request block has a value that is not UTF-8: the code drops it
-from the order -/
-def nonUtf8PseudoValue (H : Hpack) (frames : List Frame) : Bool :=
-  match requestBlock frames with
-  | some (.complete b) =>
-    match (H.dec H.init b).1 with
-    | some hs => (hs.filter isPseudo).any (fun h => !utf8Valid h.2)
-    | none => false
-  | _ => false
-
-def relevant (f : Frame) : Bool :=
-  isSettings f || isConnWindowUpdate f || isPriority f || isRequestHeaders f
-
-/-- incremental: some call consumed a fingerprint-relevant frame (SETTINGS without settings,
-connection WINDOW_UPDATE, PRIORITY, request HEADERS) without producing a fingerprint; the
-extractor forgets frames parsed by earlier calls. (Stated with the model's frame splitter, which
-`Props.C17.parseFrames_splits` shows to be the specified one.) -/
-def frameBeforeSettingsChunk (H : Hpack) (chunks : List Bytes) : Bool :=
-  let rec go (seen : Bytes) : List Bytes → Bool
-    | [] => false
-    | c :: cs =>
-      let seen' := seen ++ c
-      let fr := (parseFramesSkipPreface seen').1
-      (!cs.isEmpty && fr.any relevant && (extractAkamai H fr).isNone) || go seen' cs
-  go [] chunks
+  requestBlock frames == some .incomplete
 
 end Huginn.KF.C17
